@@ -1,6 +1,8 @@
 package server
 
 import (
+	"strings"
+
 	"github.com/nalgeon/redka/internal/redis"
 )
 
@@ -19,7 +21,7 @@ func ParseConfig(b redis.BaseCmd) (Config, error) {
 	if len(cmd.Args()) == 0 {
 		return Config{}, redis.ErrInvalidArgNum
 	}
-	cmd.subcmd = string(cmd.Args()[0])
+	cmd.subcmd = strings.ToLower(string(cmd.Args()[0]))
 
 	// Parse the subcommand.
 	var err error
